@@ -124,6 +124,7 @@ type verifC13Outcome struct {
 	Reports     []string            `json:"reports"`
 	AnchorRep   []string            `json:"anchorReports"`
 	Published   int                 `json:"published"`
+	ForceCloses int                 `json:"forceCloses"`
 	ResolvedBad []string            `json:"resolvedBad"`
 	Writes      int                 `json:"writes"`
 	Kinds       []string            `json:"writeKinds"`
@@ -175,6 +176,7 @@ func verifC13Collect(w *verifCCWorld, p *verifCCProc) *verifC13Outcome {
 		}
 	}
 	o.Published = len(w.published)
+	o.ForceCloses = len(w.forceCloses)
 	o.ResolvedBad = append(o.ResolvedBad, w.resolvedBad...)
 	o.EndHeight = w.height
 	o.PostMortem = w.postMortem
@@ -534,6 +536,12 @@ func verifC13Judge(vc *verifCtx, s *verifC13Scenario, ref,
 	tag := fmt.Sprintf("kind=%s:stop-after=%s:restart-in=%s:due-at-close=%v",
 		s.Kind, stopAt, strings.Join(got.RestartIn, "+"),
 		verifC13DueAtClose(s))
+	if got.ForceCloses > 0 && ref.ForceCloses == 0 {
+		// The restarted node broadcast its own commitment although the
+		// uninterrupted run never did (it restarted before the close
+		// was durable and an HTLC was due).
+		tag = "extra-broadcast=true:" + tag
+	}
 
 	vc.Count("oracle_terminal_evals", 1)
 	if ref.Resolved != got.Resolved {
@@ -627,8 +635,11 @@ func verifC13Judge(vc *verifCtx, s *verifC13Scenario, ref,
 				got.Reports, ref.Reports), wit)
 		}
 		if !verifC13MapEq(ref.Finals, got.Finals) {
-			vc.Diag("final_outcomes_differ", fmt.Sprintf(
-				"%s: %v vs %v", tag, got.Finals, ref.Finals))
+			verifCCViolation(vc, "same_contracts_resolved", fmt.Sprintf(
+				"final-outcomes-differ:%s", tag), fmt.Sprintf(
+				"final outcomes of received HTLCs %v, "+
+					"uninterrupted run had %v", got.Finals,
+				ref.Finals), wit)
 		}
 	}
 	if !verifC13Eq(ref.AnchorRep, got.AnchorRep) {
@@ -650,7 +661,7 @@ func TestVerifC13(t *testing.T) {
 		return verifCCDBPath(dir, dbn)
 	}
 
-	total := vc.N(160, 2400)
+	total := vc.N(320, 8000)
 	for i := 0; i < total; i++ {
 		if !vc.Mine(i) {
 			continue
